@@ -149,3 +149,14 @@ def vector_lengths(inline_path, out_path, tables):
         out.append('%s %d %d' % (name, flat, ln))
     with open(out_path, 'w') as f: f.write('\n'.join(out) + '\n')
     return len(out)
+
+def build_prdrv(sc, auxdir, repo=REPO, san='address,undefined'):
+    """the build-time driver: libprdata sources + harness/prdrv.c (which #includes src/pr_data.c) + the generated dumper"""
+    bdir = sc.path('b')
+    fl = cflags(repo, bdir) + ['-O1', '-g', '-w', '-fno-omit-frame-pointer', '-DPRDATA_PHASE', '-I' + auxdir, '-I' + os.path.join(VERIF, 'harness')]
+    if san: fl += ['-fsanitize=' + san, '-fno-sanitize-recover=all']
+    srcs = [os.path.join(repo, 'src', s) for s in PRDATA_LIB]
+    objs = compile_many('clang-14', fl, srcs, sc.path('o_prdrv'))
+    exe = sc.path('prdrv')
+    run(['clang-14'] + fl + [os.path.join(VERIF, 'harness', 'prdrv.c'), os.path.join(auxdir, 'dump_gen.c')] + objs + ['-lm', '-o', exe])
+    return exe
